@@ -28,6 +28,23 @@ func subset(t *rapid.T, n int, label string) []uint32 {
 	return out
 }
 
+// ownID draws a rule's own id from its pool 1..n - or, now and then, 0: a rule id like any other (references to other
+// rules keep to 1..n, where 0 stands for "none" in RuleOp).
+func ownID(t *rapid.T, n int) uint32 {
+	return uint32(rapid.SampledFrom(append([]int{0}, seq(n, 3)...)).Draw(t, "id"))
+}
+
+// seq returns 1..n, each k times.
+func seq(n, k int) []int {
+	var out []int
+	for i := 1; i <= n; i++ {
+		for j := 0; j < k; j++ {
+			out = append(out, i)
+		}
+	}
+	return out
+}
+
 // GenRule draws one rule op of the given verb set.
 func (g GenCfg) GenRule(t *rapid.T, verbs []string) RuleOp {
 	kind := rapid.SampledFrom([]string{"PDR", "PDR", "FAR", "QER", "URR", "URR", "BAR"}).Draw(t, "kind")
@@ -38,7 +55,7 @@ func (g GenCfg) GenRule(t *rapid.T, verbs []string) RuleOp {
 	r := RuleOp{Verb: verb, Kind: kind}
 	switch kind {
 	case "PDR":
-		r.ID = uint32(rapid.IntRange(1, g.PDRs).Draw(t, "id"))
+		r.ID = ownID(t, g.PDRs)
 		if verb != "remove" {
 			r.Prec = uint32(rapid.IntRange(1, 255).Draw(t, "prec"))
 			r.SrcIf = uint8(rapid.IntRange(0, 1).Draw(t, "srcif"))
@@ -51,7 +68,7 @@ func (g GenCfg) GenRule(t *rapid.T, verbs []string) RuleOp {
 			r.URRs = subset(t, g.URRs, "urr")
 		}
 	case "FAR":
-		r.ID = uint32(rapid.IntRange(1, g.FARs).Draw(t, "id"))
+		r.ID = ownID(t, g.FARs)
 		if verb != "remove" {
 			r.HasAction = true
 			r.Action = rapid.SampledFrom([]uint16{1, 2, 4, 0xc}).Draw(t, "action")
@@ -61,19 +78,19 @@ func (g GenCfg) GenRule(t *rapid.T, verbs []string) RuleOp {
 			r.BAR = uint8(rapid.IntRange(0, g.BARs).Draw(t, "bar"))
 		}
 	case "QER":
-		r.ID = uint32(rapid.IntRange(1, g.QERs).Draw(t, "id"))
+		r.ID = ownID(t, g.QERs)
 		if verb != "remove" {
 			r.QFI = uint8(rapid.IntRange(0, 63).Draw(t, "qfi"))
 		}
 	case "URR":
-		r.ID = uint32(rapid.IntRange(1, g.URRs).Draw(t, "id"))
+		r.ID = ownID(t, g.URRs)
 		if verb == "create" || verb == "update" {
 			r.Method = uint8(rapid.IntRange(0, 7).Draw(t, "method"))
 			r.MNOP = rapid.Bool().Draw(t, "mnop")
 			r.Trig = rapid.SampledFrom([]uint32{0x02, 0x0100, 0x0102}).Draw(t, "trig")
 		}
 	case "BAR":
-		r.ID = uint32(rapid.IntRange(1, g.BARs).Draw(t, "id"))
+		r.ID = ownID(t, g.BARs)
 	}
 	return r
 }
